@@ -5,6 +5,7 @@ package main
 import (
 	"context"
 	"database/sql"
+	"encoding/hex"
 	"errors"
 	"fmt"
 	"hash/fnv"
@@ -91,6 +92,115 @@ func (f *c08FaultStore) DeletePart(ctx context.Context, tx database.Tx, id parts
 	return f.PartStore.DeletePart(ctx, tx, id)
 }
 
+// ---------------------------------------------------------------- pausing the collector between its transactions
+
+type c08GcMark struct{}
+
+// c08GateDB is the database handed to the storage (and so to its collector).  Transactions begun
+// with a context carrying c08GcMark belong to a collector pass started by gcStart; the gate can
+// stop that pass right before one of its root transactions begins (it holds no lock there), so
+// that writer operations commit between the collector's observation and its repair, or between a
+// store listing and the condemnation of the listed ids.
+type c08GateDB struct {
+	database.Database
+	mu       sync.Mutex
+	mode     string // "" | obs: before the first write tx | list: before the first write tx that follows the 2nd+ read tx
+	reads    int
+	prevRead bool
+	fired    bool
+	paused   chan struct{}
+	resume   chan struct{}
+}
+
+func (g *c08GateDB) BeginTx(ctx context.Context, opts *sql.TxOptions) (*database.TxController, error) {
+	if ctx.Value(c08GcMark{}) != nil {
+		if _, nested := database.TxControllerFromContext(ctx); !nested {
+			g.gate(opts != nil && opts.ReadOnly)
+		}
+	}
+	return g.Database.BeginTx(ctx, opts)
+}
+
+func (g *c08GateDB) UnwrapDatabase() database.Database { return g.Database }
+
+func (g *c08GateDB) gate(readOnly bool) {
+	g.mu.Lock()
+	stop := false
+	if g.mode != "" && !g.fired {
+		if readOnly {
+			g.reads++
+		} else if g.mode == "obs" || (g.mode == "list" && g.prevRead && g.reads >= 2) {
+			stop, g.fired = true, true
+		}
+	}
+	g.prevRead = readOnly
+	paused, resume := g.paused, g.resume
+	g.mu.Unlock()
+	if stop {
+		close(paused)
+		<-resume
+	}
+}
+
+// gcStart runs one collector pass in a goroutine; when the pass reaches the pause point of mode it
+// stops there and gcStart returns paused=true; finish() lets it run to its end.
+func (k *c08Stack) gcStart(ctx context.Context, mode string) (paused bool, finish func() error) {
+	g := k.gate
+	g.mu.Lock()
+	g.mode, g.reads, g.prevRead, g.fired = mode, 0, false, false
+	g.paused, g.resume = make(chan struct{}), make(chan struct{})
+	pc, rc := g.paused, g.resume
+	g.mu.Unlock()
+	done := make(chan error, 1)
+	go func() { done <- gc.RunOnce(context.WithValue(ctx, c08GcMark{}, true), k.collector) }()
+	disarm := func() {
+		g.mu.Lock()
+		g.mode = ""
+		g.mu.Unlock()
+	}
+	select {
+	case <-pc:
+		return true, func() error { close(rc); err := <-done; disarm(); return err }
+	case err := <-done:
+		disarm()
+		return false, func() error { return err }
+	}
+}
+
+// extraFiles lists, per kind, the files in the directory of filesystem store i that GetPartIds
+// does not return (anything that is not a 32-hex-digit part file).
+func (k *c08Stack) extraFiles(i int) map[string]int {
+	out := map[string]int{}
+	s := k.stores[i]
+	if s.kind != "fs" {
+		return out
+	}
+	ents, err := os.ReadDir(s.dir)
+	if err != nil {
+		return out
+	}
+	for _, e := range ents {
+		n := e.Name()
+		if len(n) == 32 {
+			if _, err := hex.DecodeString(n); err == nil && !e.IsDir() {
+				continue
+			}
+		}
+		if k.handMade[filepath.Join(s.dir, n)] {
+			continue
+		}
+		switch {
+		case strings.HasSuffix(n, ".tmp"):
+			out["tmp"]++
+		case strings.Contains(n, ".txbackup."):
+			out["txbackup"]++
+		default:
+			out["other"]++
+		}
+	}
+	return out
+}
+
 // ---------------------------------------------------------------- stacks
 
 type c08Store struct {
@@ -110,6 +220,8 @@ type c08Stack struct {
 	stores    []*c08Store // index = store ordinal of the trace
 	regRepo   partregistry.Repository
 	idxRepo   partdedupindex.Repository
+	gate      *c08GateDB
+	handMade  map[string]bool // files the harness itself put into store directories
 }
 
 const c08ColdStore = "cold"
@@ -119,7 +231,7 @@ const c08ColdStore = "cold"
 func newC08Stack(dir, kind string, grace time.Duration, start bool, interval time.Duration) *c08Stack {
 	verifx.Check(os.MkdirAll(dir, 0o755))
 	db := verifx.Must(sqlite.OpenDatabase(filepath.Join(dir, "pithos.db")))
-	k := &c08Stack{dir: dir, kind: kind, db: db}
+	k := &c08Stack{dir: dir, kind: kind, db: db, gate: &c08GateDB{Database: db}, handMade: map[string]bool{}}
 	mk := func(name, skind, sub string) *c08Store {
 		s := &c08Store{name: name, kind: skind}
 		if skind == "fs" {
@@ -152,7 +264,7 @@ func newC08Stack(dir, kind string, grace time.Duration, start bool, interval tim
 	if interval > 0 {
 		opts = append(opts, metadatapart.WithGCInterval(interval))
 	}
-	k.st = verifx.Must(metadatapart.NewStorageWithNamedPartStores(db, ms, k.stores[0].ps, extra, classes, opts...))
+	k.st = verifx.Must(metadatapart.NewStorageWithNamedPartStores(k.gate, ms, k.stores[0].ps, extra, classes, opts...))
 	if start {
 		verifx.Check(k.st.Start(context.Background()))
 	}
